@@ -34,6 +34,9 @@ QUERIES = {
     "q_path": "SELECT ?a ?b WHERE { ?a (<urn:x:p1>|<urn:x:p2>)* ?b }",
     "q_from": "SELECT * FROM <urn:g:g1> WHERE { ?s ?p ?o }",
     "q_from_named": "SELECT * FROM NAMED <urn:g:g1> WHERE { GRAPH ?g { ?s ?p ?o } }",
+    "q_graph_absent": "SELECT * WHERE { GRAPH <urn:g:absent> { ?s ?p ?o } }",
+    "q_graph_absent_ask": "ASK { GRAPH <urn:g:absent2> { ?s ?p ?o } }",
+    "q_graph_absent_opt": "SELECT * WHERE { ?s ?p ?o OPTIONAL { GRAPH <urn:g:absent3> { ?s ?q ?z } } }",
     "q_exists": "SELECT ?s WHERE { ?s ?p ?o FILTER NOT EXISTS { ?o ?q ?z } }",
     "q_subselect": "SELECT ?s WHERE { { SELECT ?s WHERE { ?s ?p ?o } LIMIT 2 } }",
 }
